@@ -449,6 +449,30 @@ theorem html_text_safe_not_preserved :
     tokens false "<b>x".toList = [.startTag "b".toList [] false, .char 'x' true] := by
   decide +kernel
 
+/-- the statement over the lexer grammar: every token stream of the lexer's shape, all options, no sub-minifier -/
+def html_output_retokenises_lexshape_full : Prop :=
+  ∀ (o : Opts) (toks : List HTok) (out : List Char) (g : Bool) (ps : List Piece), lexShape toks = true →
+    htmlMinify o [] none toks = .ok out → walk o [] none {} .data toks = .ok (g, ps) → tokens false out = intended ps
+
+/-- **html_output_retokenises_lexshape_counterexample**: the statement is FALSE over the lexer grammar (K-C09-HTML-4):
+    `a<`, a comment that is removed, `b>c` — all three tokens have the lexer's shape.  What is true is the guarded
+    statement `html_output_retokenises_partial`.  (K-C09-HTML-10 is a defect of ONE piece — the text `<&#98;>x` is written
+    as `<b>x` — not of the composition: `html_text_safe_not_preserved`.) -/
+theorem html_output_retokenises_lexshape_counterexample : ¬ html_output_retokenises_lexshape_full := by
+  intro h
+  have h0 : lexShape [.text "a<".toList false, .comment "<!-- -->".toList " ".toList, .text "b>c".toList false] = true := by
+    decide
+  have h1 : htmlMinify {} [] none [.text "a<".toList false, .comment "<!-- -->".toList " ".toList, .text "b>c".toList false]
+      = .ok "a<b>c".toList := by decide +kernel
+  have h2 : walk {} [] none {} .data [.text "a<".toList false, .comment "<!-- -->".toList " ".toList, .text "b>c".toList false]
+      = .ok (false, [.data "a<".toList, .data [], .data "b>c".toList]) := by decide +kernel
+  have := h {} _ _ _ _ h0 h1 h2
+  revert this
+  decide
+
+/-- the single text token `<&#98;>x` has the lexer's shape too -/
+example : lexShape [.text "<&#98;>x".toList false] = true := by decide
+
 /-- a document with a doctype, attributes in all three forms, an omitted end tag, a removed comment between texts, a raw
     `<` before a digit, a script whose content holds `</scr` and `<\/script>`, and a textarea -/
 def exampleToks : List HTok :=
@@ -465,7 +489,8 @@ example : htmlMinify {} [] none exampleToks =
     .ok "<!doctype html><p title='a\"b' id=x/ hidden>1 <2 & yz &lt;b</p><script async>var s=\"</scr\"+\"<\\/script>\";</script><textarea> a  </b> </textarea>".toList := by
   decide +kernel
 
-example : (match walk {} [] none {} .data exampleToks with | .ok (g, _) => g | .error _ => false) = true := by
+example : (match walk {} [] none {} .data exampleToks with | .ok (g, _) => g | .error _ => false) = true ∧
+    lexShape exampleToks = true := by
   decide +kernel
 
 end Verif.Proofs.C09HtmlFlagship
